@@ -1,11 +1,13 @@
 package main
 
 import (
+	"crypto/sha1"
 	"fmt"
 	"go/ast"
 	"os"
 	"path/filepath"
 	"regexp"
+	"sort"
 	"strconv"
 	"strings"
 
@@ -87,6 +89,56 @@ func classifyScan(f *gofacts.File, name string) scanTuple {
 	return t
 }
 
+// canonical-text hashes (gofacts.Canon: locals renamed, `var x = e` ≡ `x := e`, white space collapsed; sha1, 12 hex
+// digits) of every function the hand-written model mirrors, as they are in the tree the model was written against.
+// A renamed local does not change them; any inserted, removed or changed statement does.
+var coreHash = map[string]string{
+	".New": "fbefecb9e685", ".NewFreeList": "d6a7f82fc7bd", ".NewWithFreeList": "0238af3d4420", ".max": "af2b31a07c45", ".min": "7d88fc1f7404",
+	"BTree.Clear": "a67ad82dd8d1", "BTree.Clone": "5f97fa64fc46", "BTree.Delete": "83969a86ca76", "BTree.DeleteMax": "757a131048a4",
+	"BTree.DeleteMin": "3d0da29cae8a", "BTree.Get": "6a868d7b4eb2", "BTree.Has": "5398602edfb3", "BTree.Len": "796f4fae1f30",
+	"BTree.Max": "b1512682e3a4", "BTree.Min": "8d994e32d588", "BTree.ReplaceOrInsert": "e84eb7eceb1a", "BTree.deleteItem": "3765502e5608",
+	"BTree.maxItems": "127ff6da923c", "BTree.minItems": "15e4fe6a7968", "FreeList.freeNode": "07fa1138af39", "FreeList.newNode": "3b00f5d4b2c3",
+	"children.insertAt": "d5f50b76e710", "children.pop": "ed8b213fa5ac", "children.removeAt": "c53ea987ab0f", "children.truncate": "ef7e6ed1a5f4",
+	"copyOnWriteContext.freeNode": "02ebc3e561bf", "copyOnWriteContext.newNode": "b60a1a27090a", "items.find": "1cbb98ac4b29",
+	"items.insertAt": "aff62ea157bc", "items.pop": "4b06a4b589bb", "items.removeAt": "28563bdecd90", "items.truncate": "746d9fabd600",
+	"node.get": "302621d1e2d1", "node.growChildAndRemove": "6203868315ba", "node.insert": "ef5ceb1cf711", "node.iterate": "2e45fcce796a",
+	"node.maybeSplitChild": "e1482b94c427", "node.mutableChild": "1ffb9fd8c272", "node.mutableFor": "c6eaea2acf95", "node.remove": "c0c38631a611",
+	"node.reset": "71fe25add3a5", "node.split": "a5efb4c4a001",
+}
+
+var wrapperHash = map[string]string{
+	".NewBTree": "630783cac848", "BTree.AscendGt": "496d9c679d05", "BTree.AscendGte": "00b215e5a575", "BTree.Delete": "ba4e81d907b6",
+	"BTree.DescendLt": "744faff8c4de", "BTree.DescendLte": "9bc229133f79", "BTree.Get": "0f83915c863f", "BTree.Insert": "d652f7dbba06",
+	"BTree.Update": "26f06674f999", "BTree.UpdateOrInsert": "303a21ed656f",
+}
+
+var coreGroups = []struct {
+	name string
+	fns  []string
+}{
+	{"bodyIterate", []string{"node.iterate"}},
+	{"bodyFind", []string{"items.find"}},
+	{"bodySlices", []string{"items.insertAt", "items.removeAt", "items.pop", "items.truncate", "children.insertAt", "children.removeAt", "children.pop", "children.truncate", "node.split"}},
+	{"bodyInsert", []string{"node.insert", "node.maybeSplitChild", "BTree.ReplaceOrInsert"}},
+	{"bodyRemove", []string{"node.remove", "node.growChildAndRemove", "BTree.deleteItem", "BTree.Delete", "BTree.DeleteMin", "BTree.DeleteMax"}},
+	{"bodyLookup", []string{"node.get", ".min", ".max", "BTree.Get", "BTree.Min", "BTree.Max", "BTree.Has", "BTree.Len", "BTree.maxItems", "BTree.minItems"}},
+	{"bodyCow", []string{"BTree.Clone", "node.mutableFor", "node.mutableChild", "copyOnWriteContext.newNode", "copyOnWriteContext.freeNode",
+		"FreeList.newNode", "FreeList.freeNode", ".NewFreeList", ".New", ".NewWithFreeList", "BTree.Clear", "node.reset"}},
+}
+
+func canonHash(f *gofacts.File, qual string) string {
+	i := strings.Index(qual, ".")
+	fd := f.Func(qual[:i], qual[i+1:])
+	if fd == nil {
+		return "missing"
+	}
+	return fmt.Sprintf("%x", sha1.Sum([]byte(f.Canon(fd))))[:12]
+}
+
+// the two recognised shapes of (*tree.BTree).iterWalk, in canonical text; %s = the limit comparison
+const walkEager = "func ( v1 * BTree ) iterWalk ( v2 Node , v3 _gBtreeIterWrap , v4 FilterFn , v5 int ) [ ] Node { if v5 == 0 { return nil ; } ; v6 := make ( [ ] Node , 0 , v5 ) ; v7 := 0 ; v8 := func ( v9 Node ) bool { if v7 %s v5 { return false ; } ; if v4 ( v9 ) { v6 = append ( v6 , v9 ) ; v7 ++ ; } ; return true ; } ; v1 . rw . RLock ( ) ; defer v1 . rw . RUnlock ( ) ; v3 ( v2 , v8 ) ; return v6 ; } ;"
+const walkCapped = "func ( v1 * BTree ) iterWalk ( v2 Node , v3 _gBtreeIterWrap , v4 FilterFn , v5 int ) [ ] Node { if v5 == 0 { return nil ; } ; v1 . rw . RLock ( ) ; defer v1 . rw . RUnlock ( ) ; v6 := v5 ; if v7 := v1 . t . Len ( ) ; v7 < v6 { v6 = v7 ; } ; v8 := make ( [ ] Node , 0 , v6 ) ; v9 := 0 ; v10 := func ( v11 Node ) bool { if v9 %s v5 { return false ; } ; if v4 ( v11 ) { v8 = append ( v8 , v11 ) ; v9 ++ ; } ; return true ; } ; v3 ( v2 , v10 ) ; return v8 ; } ;"
+
 func extract(repo, leanDir string) {
 	bt := gofacts.MustLoad(repo, "ds/tree/btree/btree.go")
 	ext := gofacts.MustLoad(repo, "ds/tree/btree/btree_ext.go")
@@ -149,19 +201,23 @@ func extract(repo, leanDir string) {
 		wr.Body("BTree", "Delete") == "{ b.rw.Lock() defer b.rw.Unlock() var e = b.t.Delete(k) return e != nil }"
 	walk := wr.Body("BTree", "iterWalk")
 	wrapperReadLocks := wr.Body("BTree", "Get") == "{ b.rw.RLock() defer b.rw.RUnlock() return b.t.Get(k) }" &&
-		strings.HasSuffix(walk, "b.rw.RLock() defer b.rw.RUnlock() iterFn(k, fn) return ns }")
+		(strings.HasSuffix(walk, "b.rw.RLock() defer b.rw.RUnlock() iterFn(k, fn) return ns }") ||
+			strings.HasPrefix(walk, "{ if n == 0 { return nil } b.rw.RLock() defer b.rw.RUnlock() "))
 	updateBody := wr.Body("BTree", "Update") ==
 		"{ b.rw.Lock() defer b.rw.Unlock() var e = b.t.Delete(oldV) if e == nil { return false } b.t.ReplaceOrInsert(newV) return true }"
 	upsertBody := wr.Body("BTree", "UpdateOrInsert") ==
 		"{ b.rw.Lock() defer b.rw.Unlock() var e = b.t.Delete(oldV) b.t.ReplaceOrInsert(newV) return e != nil }"
 
-	// iterWalk: the limit comparison is a parameter of the model; the rest of the body is a fact
-	limitCmp := "unknown"
-	walkRe := regexp.MustCompile(`^\{ if n == 0 \{ return nil \} var ns = make\(\[\]Node, 0, n\) var c = 0 var fn = func\(v Node\) bool \{ if c (>=|==|>) n \{ return false \} if filter\(v\) \{ ns = append\(ns, v\) c\+\+ \} return true \} b\.rw\.RLock\(\) defer b\.rw\.RUnlock\(\) iterFn\(k, fn\) return ns \}$`)
-	walkBody := false
-	if m := walkRe.FindStringSubmatch(walk); m != nil {
-		walkBody = true
-		limitCmp = map[string]string{">=": "ge", "==": "eq", ">": "gt"}[m[1]]
+	// iterWalk: the limit comparison and the pre-sizing are parameters of the model; the rest of the body is pinned
+	limitCmp, prealloc, walkBody := "unknown", "unknown", false
+	walkCanon := wr.Canon(wr.Func("BTree", "iterWalk"))
+	for op, name := range map[string]string{">=": "ge", "==": "eq", ">": "gt"} {
+		if walkCanon == fmt.Sprintf(walkEager, op) {
+			limitCmp, prealloc, walkBody = name, "eager", true
+		}
+		if walkCanon == fmt.Sprintf(walkCapped, op) {
+			limitCmp, prealloc, walkBody = name, "capped", true
+		}
 	}
 	wrapperDegree := 0
 	if m := regexp.MustCompile(`b\.t = btree\.New\((\d+)\)`).FindStringSubmatch(wr.Body("", "NewBTree")); m != nil {
@@ -174,8 +230,35 @@ func extract(repo, leanDir string) {
 		bt.Body("node", "mutableChild") == "{ c := n.children[i].mutableFor(n.cow) n.children[i] = c return c }" &&
 		bt.Body("copyOnWriteContext", "newNode") == "{ n = c.freelist.newNode() n.cow = c return }"
 
+	// whole bodies, by group
+	var deviating []string
+	var groupOK []bool
+	for _, g := range coreGroups {
+		ok := true
+		for _, fn := range g.fns {
+			if canonHash(bt, fn) != coreHash[fn] {
+				ok = false
+				deviating = append(deviating, g.name+":"+fn)
+			}
+		}
+		groupOK = append(groupOK, ok)
+	}
+	bodyWrapper := walkBody
+	for fn, want := range wrapperHash {
+		if canonHash(wr, fn) != want {
+			bodyWrapper = false
+			deviating = append(deviating, "bodyWrapper:"+fn)
+		}
+	}
+	if !walkBody {
+		deviating = append(deviating, "bodyWrapper:BTree.iterWalk")
+	}
+	sort.Strings(deviating)
+
 	facts := []bool{maxItemsExpr, minItemsExpr, splitHalf, splitGuards, growGuard, stealGuards, otherScans, rootNilGuard,
 		wrapperScanMap, wrapperWriteLocks, wrapperReadLocks, updateBody, upsertBody, walkBody, cloneFreshCows, cowGuards}
+	facts = append(facts, groupOK...)
+	facts = append(facts, bodyWrapper)
 	var fs []string
 	for _, b := range facts {
 		fs = append(fs, gofacts.LeanBool(b))
@@ -185,14 +268,14 @@ set_option linter.unusedVariables false
 /-! GENERATED by `+"`c03 extract`"+` from ds/tree/btree/btree.go, ds/tree/btree/btree_ext.go, ds/tree/btree.go — do not edit. -/
 namespace Nv.Gen.C03
 open Nv.C03
-def cfg : Cfg := ⟨%s, %s, %s, %s, .%s, %d⟩
+def cfg : Cfg := ⟨%s, %s, %s, %s, .%s, %d, .%s⟩
 def facts : Facts := ⟨%s⟩
 end Nv.Gen.C03
-`, ascGe.lean(), ascGt.lean(), descLe.lean(), descLt.lean(), limitCmp, wrapperDegree, strings.Join(fs, ", "))
+`, ascGe.lean(), ascGt.lean(), descLe.lean(), descLt.lean(), limitCmp, wrapperDegree, prealloc, strings.Join(fs, ", "))
 	if err := gofacts.WriteIfChanged(filepath.Join(leanDir, "Nv/Gen/C03.lean"), out); err != nil {
 		fmt.Fprintln(os.Stderr, err)
 		os.Exit(2)
 	}
-	fmt.Printf("extract C03: ascGe=%v ascGt=%v descLe=%v descLt=%v limitCmp=%s wrapperDegree=%d facts=%v\n",
-		ascGe, ascGt, descLe, descLt, limitCmp, wrapperDegree, facts)
+	fmt.Printf("extract C03: ascGe=%v ascGt=%v descLe=%v descLt=%v limitCmp=%s wrapperDegree=%d prealloc=%s facts=%v deviating=%v\n",
+		ascGe, ascGt, descLe, descLt, limitCmp, wrapperDegree, prealloc, facts, deviating)
 }
